@@ -11,6 +11,7 @@
 package c07
 
 import (
+	"encoding/json"
 	"fmt"
 	"os"
 	"path/filepath"
@@ -19,6 +20,7 @@ import (
 	"testing"
 
 	"pgregory.net/rapid"
+	"verifharness/gen"
 	"verifharness/pbt"
 )
 
@@ -95,7 +97,7 @@ func basmLabels(c BasmCase, ok bool) (labels []string, rich int) {
 		labels = append(labels, "two-files")
 	}
 	for _, f := range c.Flags {
-		if strings.HasPrefix(f, "-") {
+		if strings.HasPrefix(f, "-") && f != "-oprefix" {
 			labels = append(labels, "flag"+f)
 		}
 	}
@@ -114,16 +116,16 @@ func propInprocBasm(c BasmCase) pbt.Outcome {
 		n = 2
 	}
 	first := assembleOnce(c.Files, c.Flags)
-	ok := first["bm.json"] != ""
+	ok := first["bm.json"] != "" || first["cluster.json"] != ""
 	labels, rich := basmLabels(c, ok)
 	if !c.Probe {
-		labels = append(labels, canonicalise(first)...)
+		labels = append(labels, canonicalise("basm", first)...)
 	}
 	out := pbt.Outcome{NonTrivial: ok && rich >= 2, Labels: labels}
 	for i := 1; i < n; i++ {
 		again := assembleOnce(c.Files, c.Flags)
 		if !c.Probe {
-			canonicalise(again)
+			canonicalise("basm", again)
 		}
 		if d := diffArte(first, again); d != "" {
 			out.Fail = pbt.Failf(classify("basm", d), "two in-process assemblies of the same source differ (execution 0 vs %d): %s", i, d)
@@ -160,7 +162,7 @@ func cliVerdict(tool string, files []SrcFile, steps []Step, runs int, probe bool
 	done, timeouts := 0, 0
 	for _, r := range rs {
 		if !probe && r.err == nil && r.timedOut == "" {
-			if l := canonicalise(r.arte); arte == nil {
+			if l := canonicalise(tool, r.arte); arte == nil {
 				out.Labels = l
 			}
 		}
@@ -194,7 +196,7 @@ func propCliBasm(c BasmCase) pbt.Outcome {
 	if out.Excluded != "" {
 		return out
 	}
-	ok := arte["file:bm.json"] != ""
+	ok := arte["file:bm.json"] != "" || arte["file:cluster.json"] != ""
 	labels, rich := basmLabels(c, ok)
 	out.Labels = append(out.Labels, labels...)
 	out.NonTrivial = ok && rich >= 2
@@ -227,12 +229,12 @@ func repeatInproc(tool string, n int, probe bool, f func() map[string]string) (f
 	}
 	first = f()
 	if !probe {
-		labels = canonicalise(first)
+		labels = canonicalise(tool, first)
 	}
 	for i := 1; i < n; i++ {
 		again := f()
 		if !probe {
-			canonicalise(again)
+			canonicalise(tool, again)
 		}
 		if d := diffArte(first, again); d != "" {
 			return first, labels, pbt.Failf(classify(tool, d), "%s: in-process executions 0 and %d of the same input differ: %s", tool, i, d)
@@ -374,16 +376,190 @@ func propCliQ(c QCase) pbt.Outcome {
 
 const qRule = "circuits in the .bmq format of cmd/bmqsim/program.bmq: 1..3 qubits, optional `zero` line, 1..5 gates (h x z; for the complex flavours also y s t v rx ry rz r with an angle; cx cz swap on >= 2 qubits), flavours seq_hardcoded_real|complex|addtree_complex with -save-basm, -emit-bmapi-maps, optional -build-app flavour and the -build-matrix-seq-hls bundle; the emitted .basm then goes through `basm -chooser-min-word-size`; oracle: byte equality of every emitted file, then of machine JSON/BCOF; non-trivial = a .basm was emitted and the circuit has >= 2 qubits or >= 2 gates (>= 4 matrix-element data sections and >= 2 row CPs either way)"
 
+// ---------------------------------------------------------------------------
+// bondgo
+
+func propCliBondgo(c GoCase) pbt.Outcome {
+	out, arte := cliVerdict("bondgo", []SrcFile{{"prog.go", c.Src}}, c.steps(), c.Runs, c.Probe)
+	if out.Excluded != "" {
+		return out
+	}
+	mode := "single"
+	if c.Mpm {
+		mode = "mpm"
+	}
+	out.Labels = append(out.Labels, "mode="+mode, fmt.Sprintf("rsize=%d", c.Rsize), fmt.Sprintf("workers=%d", c.Workers))
+	machine := arte["file:m.json"] + arte["file:bm.json"]
+	if machine == "" {
+		out.Labels = append(out.Labels, "bondgo-rejected")
+	} else {
+		out.Labels = append(out.Labels, "compiled")
+		// >= 2 variables (the allocator's per-processor lists) and, in mpm mode, >= 2 processors / channels
+		out.NonTrivial = c.Vars >= 2 && (!c.Mpm || c.Workers >= 1)
+	}
+	sort.Strings(out.Labels)
+	return out
+}
+
+const goRule = "Go-subset programs from a grammar of what pkg/bondgo accepts: 1..3 register + 0..2 memory variables per function, = + * ++ -- if/else(==) for{}, IOWrite on an output made with bondgo.Make; with -mpm 1..3 worker goroutines fed through channels, each with its own output; register size 8/16/32; outputs -save-assembly, -save-machine | -save-bondmachine, optionally -show-requirements on stdout; N fresh processes (quick 6, thorough 30), GOMAXPROCS in {1,2,16}; a run that hits the 6 s timeout is dropped (hangs are C12's business), fewer than 2 completed runs = excluded bondgo-timeout; non-trivial = a machine was written, main has >= 2 variables and (-mpm) there are >= 2 processors"
+
+// ---------------------------------------------------------------------------
+// bondmachine -create-verilog
+
+type VCase struct {
+	BM        string // machine JSON (json.Marshal(bm.Jsoner()))
+	Source    string // handshake | basm (how the generator obtained the machine)
+	Sim       bool   // -verilog-simulation -simbox-file sb.json (empty simbox)
+	Commented bool   // -comment-verilog
+	Runs      int
+	Probe     bool
+}
+
+func genVCase(runs func() int) func(t *rapid.T) VCase {
+	return func(t *rapid.T) VCase {
+		c := VCase{Runs: runs(), Sim: rapid.IntRange(0, 3).Draw(t, "sim") != 0, Commented: rapid.Bool().Draw(t, "commented")}
+		if rapid.Bool().Draw(t, "frombasm") {
+			src, flags := func() (string, []string) {
+				genNoFxp = true
+				defer func() { genNoFxp = false }() // also when rapid abandons the draw by panicking
+				return genBasmSource(t)
+			}()
+			// (machines using the fxp dynamic opcodes are left out: their HDL is read from /tmp/fxpcode/*.v, absent here,
+			// and the generator calls log.Fatal — dynop_fxp.go:402 — which would end this process)
+			if a := assembleOnce([]SrcFile{{"a.basm", src}}, flags); a["bm.json"] != "" && !strings.Contains(a["bm.json"], "fxps") {
+				c.BM, c.Source = a["bm.json"], "basm"
+				return c
+			}
+		}
+		spec := gen.HandshakeMachine(t, gen.HSOptions{MaxProcs: 4, MaxPad: 2})
+		bm, err := gen.Build(spec)
+		if err != nil {
+			t.Fatalf("gen.Build: %v", err)
+		}
+		b, _ := json.Marshal(bm.Jsoner())
+		c.BM, c.Source = string(b), "handshake"
+		return c
+	}
+}
+
+func (c VCase) procs() int {
+	var m struct{ Processors []int }
+	json.Unmarshal([]byte(c.BM), &m)
+	return len(m.Processors)
+}
+
+func (c VCase) labels() []string {
+	return []string{"source=" + c.Source, fmt.Sprintf("sim=%v", c.Sim), fmt.Sprintf("commented=%v", c.Commented), fmt.Sprintf("procs=%d", min(c.procs(), 4))}
+}
+
+func (c VCase) flavor() string {
+	if c.Sim {
+		return "iverilog_simulation"
+	}
+	return "iverilog"
+}
+
+func propInprocHDL(c VCase) pbt.Outcome {
+	var herr error
+	first, labels, fail := repeatInproc("bondmachine", c.Runs, c.Probe, func() map[string]string {
+		files, err := hdlOnce(c.BM, c.flavor(), c.Commented)
+		if err != nil {
+			herr = err
+			return map[string]string{"error": err.Error()}
+		}
+		return files
+	})
+	out := pbt.Outcome{Labels: append(c.labels(), labels...), Fail: fail}
+	nv := 0
+	for k, v := range first {
+		if strings.HasSuffix(k, ".v") && v != "" {
+			nv++
+		}
+	}
+	if herr != nil {
+		out.Labels = append(out.Labels, "hdl-error")
+	}
+	out.NonTrivial = nv >= 2 && c.procs() >= 2
+	sort.Strings(out.Labels)
+	return out
+}
+
+func propCliHDL(c VCase) pbt.Outcome {
+	args := []string{"-bondmachine-file", "bm.json", "-create-verilog"}
+	files := []SrcFile{{"bm.json", c.BM}}
+	if c.Sim {
+		args = append(args, "-verilog-simulation", "-simbox-file", "sb.json")
+		files = append(files, SrcFile{"sb.json", "{}"})
+	}
+	if c.Commented {
+		args = append(args, "-comment-verilog")
+	}
+	out, arte := cliVerdict("bondmachine", files, []Step{{Tool: "bondmachine", Args: args}}, c.Runs, c.Probe)
+	if out.Excluded != "" {
+		return out
+	}
+	out.Labels = append(out.Labels, c.labels()...)
+	nv := 0
+	for k, v := range arte {
+		if strings.HasSuffix(k, ".v") && v != "" {
+			nv++
+		}
+	}
+	if arte["step0:bondmachine:exit"] != "0" {
+		// without a simbox the test-bench generator dereferences nil (verilog.go:622) after the design files are
+		// written: a deterministic crash, the files and the masked stderr are still compared
+		out.Labels = append(out.Labels, "tool-crashed")
+	}
+	out.NonTrivial = nv >= 2 && c.procs() >= 2
+	sort.Strings(out.Labels)
+	return out
+}
+
+const vRule = "machine JSON from gen.Build(gen.HandshakeMachine(1..4 processors)) or from the in-process assembly of a generated BASM source; `bondmachine -bondmachine-file bm.json -create-verilog` with the iverilog flavour, optionally -verilog-simulation -simbox-file (empty simbox) and -comment-verilog; oracle: byte equality of every emitted .v file (and exit status / masked stderr); non-trivial = >= 2 non-empty .v files and >= 2 processors (processor, ROM/RAM and link tables each have >= 2 entries)"
+
 const basmRule = "BASM sources synthesised from a grammar (1..5 code sections with labels, entry, rset/inc/add/mult/cpy/mov/jz/j bodies, rom/ram accesses, 0..3 data sections, 0..3 macros, 1..5 CPs sharing sections, an IO network; and/or 1..4 fragments (plain and templated), 1..6 instances in a DAG, links, CPs with fragcollapse lists), literals in every bmnumbers notation over-sampled at 10/100, optional second input file, chooser/pass/optimization flags; oracle: byte equality of machine JSON, BCOF, requirement dump, bminfo (and, CLI tier, stdout/stderr/exit status) between executions; non-trivial = a machine was produced and at least two of the collections {sections, fragments, macros, cpdefs, iodefs, fidefs, filinkdefs} have >= 2 entries"
 
 var Props = []*pbt.Entry{
-	pbt.Def("inproc_basm", basmRule+"; 5 executions on fresh BasmInstances in one process (registries reset between them)", genBasmCase(func() int { return inprocRuns }), propInprocBasm),
-	pbt.Def("inproc_neuralbond", nbRule+"; 5 in-process executions of the neuralbond sequence, 3 of the assembler", genNBCase(func() int { return inprocRuns }), propInprocNB),
-	pbt.Def("cli_neuralbond", nbRule+"; N fresh processes per stage (quick 6, thorough 30), GOMAXPROCS in {1,2,16}", genNBCase(tierRuns), propCliNB),
-	pbt.Def("inproc_bmqsim", qRule+"; 5 in-process executions of the bmqsim sequence, 3 of the assembler", genQCase(func() int { return inprocRuns }), propInprocQ),
-	pbt.Def("cli_bmqsim", qRule+"; N fresh processes per stage (quick 6, thorough 30), GOMAXPROCS in {1,2,16}", genQCase(tierRuns), propCliQ),
-	pbt.Def("cli_basm", basmRule+"; N fresh processes (quick 6, thorough 30), GOMAXPROCS in {1,2,16}; a second outcome of per-run probability p is missed with (1-p)^(N-1)", genBasmCase(tierRuns), propCliBasm),
+	pbt.Def("inproc_basm", basmRule+"; 5 executions on fresh BasmInstances in one process (registries reset between them)", genBasmCase(func() int { return inprocRuns }), wrap(propInprocBasm)),
+	pbt.Def("inproc_neuralbond", nbRule+"; 5 in-process executions of the neuralbond sequence, 3 of the assembler", genNBCase(func() int { return inprocRuns }), wrap(propInprocNB)),
+	pbt.Def("cli_neuralbond", nbRule+"; N fresh processes per stage (quick 6, thorough 30), GOMAXPROCS in {1,2,16}", genNBCase(tierRuns), wrap(propCliNB)),
+	pbt.Def("inproc_bmqsim", qRule+"; 5 in-process executions of the bmqsim sequence, 3 of the assembler", genQCase(func() int { return inprocRuns }), wrap(propInprocQ)),
+	pbt.Def("cli_bmqsim", qRule+"; N fresh processes per stage (quick 6, thorough 30), GOMAXPROCS in {1,2,16}", genQCase(tierRuns), wrap(propCliQ)),
+	pbt.Def("inproc_hdl", vRule+"; 5 in-process Write_verilog executions from a fresh Dejsoner()+Init() each", genVCase(func() int { return inprocRuns }), wrap(propInprocHDL)),
+	pbt.Def("cli_bondmachine", vRule+"; N fresh processes (quick 6, thorough 30), GOMAXPROCS in {1,2,16}", genVCase(tierRuns), wrap(propCliHDL)),
+	pbt.Def("cli_bondgo", goRule, genGoCase(tierRuns), wrap(propCliBondgo)),
+	pbt.Def("cli_basm", basmRule+"; N fresh processes (quick 6, thorough 30), GOMAXPROCS in {1,2,16}; a second outcome of per-run probability p is missed with (1-p)^(N-1)", genBasmCase(tierRuns), wrap(propCliBasm)),
 }
 
-func TestProps(t *testing.T)  { pbt.RunAll(t, "C07", Props) }
+// dedupe sorts a label list and removes repetitions (two-stage pipelines collect labels per stage).
+func dedupe(out pbt.Outcome) pbt.Outcome {
+	sort.Strings(out.Labels)
+	var r []string
+	for i, l := range out.Labels {
+		if i == 0 || l != out.Labels[i-1] {
+			r = append(r, l)
+		}
+	}
+	out.Labels = r
+	return out
+}
+
+func wrap[C any](f func(C) pbt.Outcome) func(C) pbt.Outcome {
+	return func(c C) pbt.Outcome { return dedupe(f(c)) }
+}
+
+// Tools are the command-line programs the cli_* entries need in $VERIF_TOOLS.
+var Tools = []string{"basm", "bondgo", "neuralbond", "bmqsim", "bondmachine"}
+
+func TestProps(t *testing.T) {
+	if d := toolsDir(); d != "" {
+		// a missing binary must not turn every CLI case into a quiet exclusion
+		for _, tool := range Tools {
+			if _, err := os.Stat(filepath.Join(d, tool)); err != nil {
+				t.Fatalf("inconclusive: %s is not in $VERIF_TOOLS (%s): %v", tool, d, err)
+			}
+		}
+	}
+	pbt.RunAll(t, "C07", Props)
+}
 func TestReplay(t *testing.T) { pbt.ReplayAll(t, "C07", Props) }
